@@ -124,7 +124,7 @@ def depth2(tier):
 
 def depth3(tier):
     """containers with one nested container"""
-    inner_members = REPS_SMALL if tier == 'thorough' else [REPS_SMALL[1], REPS_SMALL[4], REPS_SMALL[5]]
+    inner_members = REPS if tier == 'thorough' else [REPS_SMALL[1], REPS_SMALL[4], REPS_SMALL[5]]
     inner = arrays_over(inner_members, [(0, 2), (1, 3)] if tier == 'thorough' else [(0, 2)])
     inner += [('tuple', (a, b)) for a, b in zip(inner_members, inner_members[1:] + inner_members[:1])]
     for a, b in zip(inner_members, inner_members[1:] + inner_members[:1]):
